@@ -138,7 +138,7 @@ variable {p : Profile} {g : Graph}
 theorem regAddr_inv (f : Nat) (r : Reg) {s s' : St Store} {a : Int}
     (hI : Inv p g s.cache s.dev)
     (h : regAddr p (evalInt defaultCache p g f) r s = (.ok a, s')) :
-    Inv p g s'.cache s'.dev ∧ KeyAddr p r a := by
+    Inv p g s'.cache s'.dev ∧ KeyAddr p g r a := by
   have hs := sim_regAddr (p := p) (g := g) (sim_evalInt f) r s ⟨(), s.dev⟩
     ⟨⟨rfl, rfl, rfl, rfl, rfl, logSub_refl _⟩, hI⟩
   rw [h] at hs
@@ -291,7 +291,7 @@ theorem regAddr_static {κ : Type} (ev : NodeId → M κ Int) {r : Reg} (hsel : 
     regAddr p ev r = M.pure r.base := by
   unfold regAddr; rw [hsel]
 
-theorem keyAddr_static {r : Reg} (hsel : r.sel = none) : KeyAddr p r r.base := by
+theorem keyAddr_static {r : Reg} (hsel : r.sel = none) : KeyAddr p g r r.base := by
   unfold KeyAddr; rw [hsel]
 
 /-- a successful raw `write` on a constant-address register is a successful `writeAt` -/
